@@ -1130,6 +1130,21 @@ func (g *vfGW) finish() {
 		if g.x.r.res.Counters["hygiene_leftover_goroutines"] <= int64(len(left)) {
 			g.x.r.note("leftover goroutine(s) after teardown: %s", vfFirstLine(left[0]))
 		}
+		if g.cfg.Extra["leak_is_violation"] != "" {
+			// C14: the teardown of every execution is itself a cancellation point
+			for _, gr := range left {
+				created := gr
+				if i := strings.LastIndex(gr, "created by "); i >= 0 {
+					created = gr[i:]
+				}
+				if strings.Contains(created, ".vf") || strings.Contains(created, "(*vf") {
+					continue
+				}
+				fn := strings.Fields(strings.TrimPrefix(vfFirstLine(created), "created by "))[0]
+				g.x.judge = true
+				g.x.violation("c14:goroutine-leak:"+fn, fmt.Sprintf("[%s] a goroutine created by %s is still alive after the context was cancelled, the host's streams were closed and 45 virtual seconds passed", g.cfg.Router, fn))
+			}
+		}
 	}
 }
 
